@@ -126,7 +126,7 @@ Lemma qscript_age : forall ms, qscript ms ->
       age_inv (run lazy s tr) G' /\ committed (run lazy s tr) = c0 ++ map fst X' /\
       X ++ G ++ issued_t tr = X' ++ G'.
 Proof.
-  induction 1 as [|ms Hq IH|ms Hq IH|w ms Hq IH|ws ms Hq IH|ms Hq IH|w ms Hq IH|w1 w2 ms Hq IH];
+  induction 1 as [|ms Hq IH|ms Hq IH|w ms Hq IH|ws k ms Hk Hq IH|w ms Hq IH|w1 w2 ms Hq IH];
     intros lazy tr s G X c0 t Htr Hm Hinv Hc.
   - destruct tr; [|discriminate]. exists G, X. cbn. rewrite app_nil_r. auto.
   - (* Read *)
@@ -164,10 +164,9 @@ Proof.
       exists G', X'. split; [exact H1|split; [exact H2|]].
       rewrite <- H3. unfold issued_t. rewrite flat_map_app. cbn [flat_map app]. rewrite app_nil_r.
       rewrite <- !app_assoc. reflexivity.
-  - (* ExecMany ws; CondCommit (len ws) *)
+  - (* ExecMany ws; CondCommit k *)
     apply map_fst_cons in Htr. destruct Htr as (c1 & tr1 & -> & Htr).
     apply map_fst_cons in Htr. destruct Htr as (c2 & tr2 & -> & Htr).
-    set (k := Z.of_nat (length ws)) in *.
     assert (Hm2 : mono_from t [(ExecMany ws, c1); (CondCommit k, c2)]) by (cbn in *; tauto).
     assert (Hm3 : mono_from (r3 c2) tr2) by (cbn in Hm; tauto).
     change ((ExecMany ws, c1) :: (CondCommit k, c2) :: tr2)
@@ -184,13 +183,6 @@ Proof.
       exists G', X'. split; [exact H1|split; [exact H2|]].
       rewrite <- H3. unfold issued_t. rewrite flat_map_app. cbn [flat_map app]. rewrite app_nil_r.
       rewrite <- !app_assoc. reflexivity.
-  - (* ExecMany [] alone: no write *)
-    apply map_fst_cons in Htr. destruct Htr as (c & tr' & -> & Htr).
-    destruct Hm as (_ & _ & _ & Hm).
-    rewrite run_cons. cbn [issued_t flat_map stamp fst writes_of_micro map app].
-    eapply IH; eauto.
-    + destruct Hinv as [HG Ha]. split; [|exact Ha].
-      unfold micro_step. cbn. rewrite app_nil_r. exact HG.
   - (* Exec w; Commit *)
     apply map_fst_cons in Htr. destruct Htr as (c1 & tr1 & -> & Htr).
     apply map_fst_cons in Htr. destruct Htr as (c2 & tr2 & -> & Htr).
@@ -222,13 +214,13 @@ Proof.
 Qed.
 
 Lemma age_bound : forall lazy c0 t0 h tr t,
-  Forall counted h -> map fst tr = expand_all h -> mono_from t tr ->
+  map fst tr = expand_all h -> mono_from t tr ->
   let s := run lazy (init c0 t0) tr in
   map fst (pending_stamped c0 tr s) = pending s /\
   forall w ti, In (w, ti) (pending_stamped c0 tr s) -> ti - last_commit s <= MAX_AGE.
 Proof.
-  intros lazy c0 t0 h tr t Hcnt Htr Hm s.
-  destruct (qscript_age (expand_all h) (qscript_expand_all h Hcnt) lazy tr (init c0 t0) [] [] c0 t Htr Hm)
+  intros lazy c0 t0 h tr t Htr Hm s.
+  destruct (qscript_age (expand_all h) (qscript_expand_all h) lazy tr (init c0 t0) [] [] c0 t Htr Hm)
     as (G' & X' & [HG Hage] & Hc & Hiss).
   { split; [reflexivity|]. intros w t' []. }
   { cbn. symmetry. apply app_nil_r. }
@@ -240,15 +232,16 @@ Proof.
   rewrite E. split; assumption.
 Qed.
 
-(* without the hypothesis: the rows of a bulk insert that failed 100 s after the last commit
-   stay pending although they are far older than 10 s relative to it *)
-Lemma age_bound_refuted :
-  exists h tr t, map fst tr = expand_all h /\ mono_from t tr /\
-    let s := run true (init [] 0) tr in
-    exists w ti, In (w, ti) (pending_stamped [] tr s) /\ ti - last_commit s > MAX_AGE.
+(* sensitivity: with the script insert_many had before ec39c3d, the rows of a bulk insert
+   that raised part-way 100 s after the last commit stay pending when the call returns,
+   without ever having passed the age test *)
+Lemma pre_fix_failed_bulk_breaks_age_bound :
+  let tr := map (fun m => (m, mkClk 100000000 100000000 100000000))
+                (pre_ec39c3d_insert_many_failed [] [7; 8]) in
+  let s := run true (init [] 0) tr in
+  mono_from 0 tr /\
+  exists w ti, In (w, ti) (pending_stamped [] tr s) /\ ti - last_commit s > MAX_AGE.
 Proof.
-  exists [InsertManyFailed [] [7; 8]].
-  exists [(ExecMany [7; 8], mkClk 100000000 100000000 100000000)], 0.
-  split; [reflexivity|]. split; [cbn; lia|].
+  split; [cbn; lia|].
   exists 7, 100000000. split; [left; reflexivity|]. vm_compute. reflexivity.
 Qed.
